@@ -26,9 +26,13 @@ Case = {'mode': ..., 'ops': [...]}, ops (instances are indexes into INST):
                            its mutations 1-4 and every 8th later one are crash points); a handler with fewer mutations
                            completes and disarms. After the kill: the mutations the dead handler did make are replayed
                            to the model as primitive lines (`pmkapp`, `prunlink`, `ptermmv`, `pmark`, `pcleanlink`,
-                           `pcacherm`, `prmapp`), then `restart` (queued events lost), then cache/.ready is re-notified
-                           and delivered: the start-up synchronisation of the new manager.
+                           `pcacherm`, `prmapp`), then `restart` (new manager, idle; queued events lost). The new
+                           manager synchronises at the next delivered `.ready` notification (the generator
+                           puts one right after the crash in most histories, later or never in the others).
   ['reboot']               node restart: run.sh clears running/ and cleanup/; new manager
+  ['startup', j, what, i, ok]  manager restart through the REAL `AppCfgMgr.run()` (until it would block for the second
+                           time); right before run()'s j-th statement cache/<i> is created / deleted; a change before
+                           run() created its DirWatcher queues no event; at the first wait cache/.ready is re-notified
 
 One driver line per FS change / handler call / environment move; observable after each = the whole
 tree: active flag, cache (generation, configurable), apps (marker files), running and cleanup link
@@ -233,6 +237,10 @@ def _gen_wild(rng, edge):
         elif r < 0.68:
             ops.append(['ready', 0])
         elif r < 0.72:
+            if r2.random() < 0.5:
+                ops.append(['startup', r2.randint(1, 14), r2.choice(['create', 'create', 'delete']), r2.randrange(n),
+                            r2.random() < 0.9])
+                continue
             ops.append(['restart'])
             if rng.random() < 0.8:
                 ops.append(['ready', 1])
@@ -269,7 +277,7 @@ def _gen_wild(rng, edge):
     return ops
 
 
-def _with_crashes(rng, ops):
+def _with_crashes(rng, ops, sure_resync):
     """Arm a kill before some of the deliveries: k is small (the first steps of a handler: _terminate's rename
     and touch, the first mutations of configure, a cleanup link of _synchronize) or spread over a whole
     synchronisation (one _configure call has about 8 crash points)."""
@@ -286,6 +294,12 @@ def _with_crashes(rng, ops):
                 k = rng.randint(11, 30)
             out.append(['crash', k])
             n += 1
+            out.append(op)
+            if sure_resync or rng.random() < 0.7:
+                # the event manager's periodic notification: the restarted manager synchronises (a no-op when the
+                # handler completed and the manager is still active)
+                out += [['ready', 1], ['deliver', 1]]
+            continue
         out.append(op)
     return out
 
@@ -295,11 +309,11 @@ def gen_case(rng, pid, tier):
     if r < 0.32:
         return {'mode': 'clean', 'ops': _gen_clean(rng)}
     if r < 0.50:
-        return {'mode': 'clean+crash', 'ops': _with_crashes(rng, _gen_clean(rng))}
+        return {'mode': 'clean+crash', 'ops': _with_crashes(rng, _gen_clean(rng), True)}
     if r < 0.78:
         return {'mode': 'wild', 'ops': _gen_wild(rng, False)}
     if r < 0.90:
-        return {'mode': 'wild+crash', 'ops': _with_crashes(rng, _gen_wild(rng, False))}
+        return {'mode': 'wild+crash', 'ops': _with_crashes(rng, _gen_wild(rng, False), False)}
     return {'mode': 'edge', 'ops': _gen_wild(rng, True)}
 
 
@@ -443,6 +457,10 @@ def monitor_handler(kind, name, pre, post, prims, synced, app_name):
 
 class _Crash(BaseException):
     """The manager process is killed (SIGKILL / power cut): nothing in the code under test catches it."""
+
+
+class _StopRun(BaseException):
+    """Ends the endless loop of the real `AppCfgMgr.run` when the manager would block with nothing to do."""
 
 
 class _Restarted(BaseException):
@@ -765,6 +783,7 @@ class _World:
 
             def _wait_for_events(self, timeout):
                 return bool(world.queue)
+        self.QueueWatcher = _QueueWatcher
         self.more_pending = dirwatch_base.DirWatcherEvent.MORE_PENDING
         self.expected = []          # events handed to the watcher, in inotify (FIFO) order, not yet delivered
         self.watcher = _QueueWatcher(self.env.cache_dir)
@@ -1114,10 +1133,8 @@ class _World:
             self.first_hit = True
             self.run.hits.extend(hits)
             self.stats['hits'] += len(hits)
+        # (files the dead manager removed from the cache: their inotify events went to a watch that no longer exists)
         self.restart()
-        # files the dead manager removed from the cache: their inotify events went to a watch that no longer exists
-        self.ready(True)
-        self.deliver(1)
 
     def restart(self):
         self.queue = []
@@ -1128,6 +1145,118 @@ class _World:
     def cleanup_links(self):
         """what the cleanup service sees: `glob(cleanup/*)` (no hidden entries)"""
         return sorted(n for n in os.listdir(self.env.cleanup_dir) if not n.startswith('.'))
+
+    def startup(self, j, what, i, ok):
+        """Manager restart through the REAL `AppCfgMgr.run()`: its start-up sequence runs statement by statement
+        (line tracer on run()'s frame); right before its j-th statement the event manager changes the cache
+        (`what` = create | delete of instance i). A change made before run() has created its DirWatcher produces
+        no event (there is no watch yet), a later one is queued. When run() first blocks in wait_for_events the
+        event manager's periodic notification of cache/.ready arrives; run() then processes events in its own
+        rounds of process_events(max_events=5) until it would block again, where the harness stops the loop.
+        Whatever happened to the cache before the manager first blocked must be reflected then."""
+        from treadmill import appcfgmgr
+        world = self
+        self.queue = []
+        self.expected = []
+        self.new_manager()
+        mgr = self.mgr
+        pre = self.snap()
+        self.emit('restart', pre, [])
+        name = INST[i]
+        st = {'n': 0, 'injected': None, 'live': False, 'notified': False, 'cbs': {}}
+        run_code = appcfgmgr.AppCfgMgr.run.__code__
+        ready = os.path.join(self.env.cache_dir, '.ready')
+
+        def inject(where):
+            if st['injected']:
+                return
+            st['injected'] = '%s:%s' % ('watch-exists' if st['live'] else 'before-watch', where)
+            if what == 'create':
+                world.fs_create(i, ok)
+            else:
+                world.fs_delete(i)
+            if not st['live']:
+                world.queue = []        # nobody watches the directory yet: no event
+
+        Base = self.QueueWatcher
+
+        def cb_prop(kind):
+            def getter(_self):
+                return lambda path: world.delivered(kind, os.path.basename(path))
+
+            def setter(_self, value):
+                st['cbs'][kind] = value
+            return property(getter, setter)
+
+        class _RunWatcher(Base):
+            """the DirWatcher `run()` creates: the harness' queue underneath, the harness' monitored dispatch on top
+            (the callbacks run() registers are checked to be the manager's handlers)"""
+            on_created = cb_prop('created')
+            on_modified = cb_prop('modified')
+            on_deleted = cb_prop('deleted')
+
+            def __init__(self_, watch_dir):         # pylint: disable=no-self-argument
+                Base.__init__(self_, watch_dir)
+                st['live'] = True
+                world.watcher = self_
+
+            def _wait_for_events(self_, timeout):   # pylint: disable=no-self-argument
+                inject('first-wait')
+                if not st['notified']:
+                    st['notified'] = True
+                    if os.path.exists(ready):
+                        world.ready(True)
+                if not world.queue:
+                    raise _StopRun()
+                return True
+
+        def tracer(frame, event, _arg):
+            if frame.f_code is not run_code:
+                return None
+            if event == 'line':
+                st['n'] += 1
+                if st['n'] == j:
+                    inject('line+%d' % (frame.f_lineno - run_code.co_firstlineno))
+            return tracer
+
+        lease = mock.Mock()
+        old_trace = sys.gettrace()
+        died = False
+        try:
+            with mock.patch('treadmill.dirwatch.DirWatcher', _RunWatcher), \
+                    mock.patch('treadmill.watchdog.Watchdog.create', mock.Mock(return_value=lease)):
+                sys.settrace(tracer)
+                try:
+                    mgr.run()
+                finally:
+                    sys.settrace(old_trace)
+        except _StopRun:
+            pass
+        except _Restarted:
+            died = True
+        self.stats['startup'] = self.stats.get('startup', 0) + 1
+        self.run.tags.add('startup:change@' + (st['injected'] or 'none').split(':')[0])
+        if died or self.mgr is not mgr:
+            return
+        for kind, attr in (('created', '_on_created'), ('modified', '_on_modified'), ('deleted', '_on_deleted')):
+            if st['cbs'].get(kind) != getattr(mgr, attr):
+                self.run.hits.append(fw.Hit(clause='startup-wiring', call_site='run',
+                                            detail='on_%s is %r' % (kind, st['cbs'].get(kind))))
+        post = self.snap()
+        if post['active'] and not self.first_hit:
+            # the manager went active during start-up: it has synchronised; the result must reflect the cache as it
+            # is now (nothing is queued any more), in particular the change made while it started
+            mid = dict(pre, cache=post['cache'])
+            hits = [h for h in monitor_handler('startup', '.ready', mid, post, [], True, self.orig_app_name)
+                    if h['clause'].startswith('sync:') or h['clause'] == 'handoff']
+            mine = [h for h in hits if name in h['detail'] or name.replace('#', '-') in h['detail']]
+            if mine:
+                self.first_hit = True
+                self.stats['hits'] += 1
+                self.run.hits.append(fw.Hit(
+                    clause='startup-lost-event', call_site='run:' + (st['injected'] or 'none').split(':')[0],
+                    detail='%s of cache/%s while the manager started (%s) is not reflected after its first round of '
+                           'events: %s' % (what, name, st['injected'], mine[0]['detail'])))
 
     def reboot(self):
         for d in (self.env.running_dir, self.env.cleanup_dir):
@@ -1218,6 +1347,9 @@ def run_impl(case, pid):
                             w.cleanup_link(ln)
                 elif k == 'restart':
                     w.restart()
+                elif k == 'startup':
+                    w.startup(int(op[1]), 'create' if op[2] == 'create' else 'delete', int(op[3]) % len(INST),
+                              bool(op[4]))
                 elif k == 'reboot':
                     w.reboot()
         s = w.stats
